@@ -745,6 +745,65 @@ def rear_work(params):
     return p
 
 
+def collide_plans():
+    """Plans whose generated clone names <surname>_<tag> coincide with another clone's or framer's name through underscores
+    in framer names or tags (plus controls without a coincidence).  (label, text, collides)"""
+    def plan(framers, moots):
+        L = ["house plant"]
+        for name, auxes in framers:
+            L += ["  framer %s be active first f0" % name, "    frame f0"] + ["      aux %s as %s" % a for a in auxes] + ["      print act"]
+        for name, auxes in moots:
+            L += ["  framer %s be moot first m0" % name, "    frame m0"] + ["      aux %s as %s" % a for a in auxes] + ["      print moot"]
+        return "\n".join(L) + "\n"
+    out = []
+    a, b = ("nav", [("pid", "ctl_pid")]), ("nav_ctl", [("pid", "pid")])
+    out.append(("nav+ctl_pid / nav_ctl+pid", plan([a, b], [("pid", [])]), True))
+    out.append(("nav_ctl+pid / nav+ctl_pid", plan([b, a], [("pid", [])]), True))
+    out.append(("nav+ctl_pid / nav_ctl+hold_pid,pid", plan([a, ("nav_ctl", [("pid", "hold_pid"), ("pid", "pid")])], [("pid", [])]), True))
+    out.append(("main: mx as x (mx has my as y), my as x_y", plan([("main", [("mx", "x"), ("my", "x_y")])], [("mx", [("my", "y")]), ("my", [])]), True))
+    out.append(("main: my as x_y, mx as x (mx has my as y)", plan([("main", [("my", "x_y"), ("mx", "x")])], [("mx", [("my", "y")]), ("my", [])]), True))
+    out.append(("framer nav_pid1 beside nav: pid as mine", plan([("nav_pid1", []), ("nav", [("pid", "mine")])], [("pid", [])]), True))
+    out.append(("nav: pid as mine beside framer nav_pid1", plan([("nav", [("pid", "mine")]), ("nav_pid1", [])], [("pid", [])]), True))
+    out.append(("control: nav+ctl_pid / navctl+pid", plan([a, ("navctl", [("pid", "pid")])], [("pid", [])]), False))
+    out.append(("control: main: mx as x (mx has my as y), my as xy", plan([("main", [("mx", "x"), ("my", "xy")])], [("mx", [("my", "y")]), ("my", [])]), False))
+    return out
+
+
+def collide_work(plans):
+    core.use_repo()
+    from ioflo.base import framing, excepting
+    p = core.Part()
+    for label, text, collides in plans:
+        p.evaluations += 1
+        p.nontrivial(("collide", label))
+        try:
+            with core.watchdog(60):
+                ok, b = build_program(text)
+        except core.Watchdog:
+            raise
+        except (excepting.CloneError, excepting.ResolveError, excepting.ParameterError, excepting.ParseError) as ex:
+            ok, b = False, None
+        if not ok:
+            p.outcome("collide:build-rejected")
+            if not collides:
+                p.violation("collide|control-rejected", label, "a plan without coinciding names was refused", dict(program=text))
+            continue
+        p.outcome("collide:built")
+        problems = []
+        for house in b.houses:
+            names = [t.name for t in house.taskers]
+            for n in sorted(set(names)):
+                if names.count(n) > 1:
+                    problems.append("%d live framers named %r" % (names.count(n), n))
+            for t in house.taskers:
+                if house.names["tasker"].get(t.name) is not t:
+                    problems.append("live framer %r is not the instance registered under its name" % t.name)
+        if problems:
+            p.violation("collide|" + ("duplicate-name-accepted" if "live framers named" in problems[0] else "not-registered"), label,
+                        "the build was accepted but " + "; ".join(problems[:3]), dict(program=text, problems=problems))
+    return p
+
+
 def program_work(params):
     core.use_repo()
     from ioflo.base import framing, tasking, logging
@@ -870,6 +929,8 @@ def run():
     chains = [(nroot, depth, style) for depth in ((1, 2, 3) if QUICK else (1, 2, 3, 4, 5))
               for nroot in ((2,) if QUICK else (2, 3)) for style in ("mine", "named")]
     pparts.append(chain_work(chains))
+    cplans = collide_plans()
+    pparts.append(collide_work(cplans))
     # run-time rearing after build-time insular clones: every sequence of rear/raze steps, shortest first
     steps = ("rear-worker", "rear-helper", "raze-first", "raze-last")
     rears = [(nb, seq) for n in range(1, (3 if QUICK else 5) + 1) for nb in ((0, 1, 2) if QUICK else (0, 1, 2, 3))
@@ -882,9 +943,11 @@ def run():
     ck.merge(pparts)
     for v in sorted(pv, key=lambda v: (len(v[3].get("program", "")) if isinstance(v[3], dict) else 0, v[1])):
         ck.part.violation(*v)
-    ck.coverage_extra = dict(rear_sequences=len(rears), twin_family=dict(preload=hist_str(TWIN_PRELOAD), operations_after_preload=TWIN_DEPTH), clone_chain_programs=len(chains), focused_family=dict(preload=hist_str(FOCUS_PRELOAD), operations_after_preload=FOCUS_DEPTH, shards=len(ffirsts)), all_outcomes=dict(sorted(ck.part.outcomes.items())), first_operations=len(firsts), max_depth_after_first=MAX_DEPTH, programs=len(grid),
+    ck.coverage_extra = dict(underscore_collision_plans=[c[0] for c in cplans], rear_sequences=len(rears), twin_family=dict(preload=hist_str(TWIN_PRELOAD), operations_after_preload=TWIN_DEPTH), clone_chain_programs=len(chains), focused_family=dict(preload=hist_str(FOCUS_PRELOAD), operations_after_preload=FOCUS_DEPTH, shards=len(ffirsts)), all_outcomes=dict(sorted(ck.part.outcomes.items())), first_operations=len(firsts), max_depth_after_first=MAX_DEPTH, programs=len(grid),
                              explicit_names=EXPL, randint_draws_enumerated=RCAP, randint_answers=[0, 1])
     ck.assumptions = [
+        "plans whose generated clone names coincide through underscores in framer names / tags may be rejected at build (what the unchanged code does) or "
+        "accepted with distinct names; accepting them with two live framers under one name is the violation",
         "run-time rearing is driven at the API level with the exact calls of Rearer.action / Razer.action (newAuxTag, clone, auxes bookkeeping, prune); "
         "a generated tag must differ from every tag in framer.auxes and the generated name from every registered name; re-use of a razed clone's tag is allowed",
         "Framer.prune() ends the framer's life; it releases the name only in the tasker namespace that is current and only if that namespace holds this very instance "
@@ -905,8 +968,9 @@ def run():
              "explicit duplicate Framer/Tasker f in either house, House('h'), House('g'), House()}.  Plus %d generated programs built through Builder, "
              "plus %d clone-chain plans (2-3 root framers each cloning the same chain of 1..%d moot framers, insular or equally tagged; the build must succeed and all "
              "framer names of the house be distinct and registered to their own instance), plus %d rear/raze sequences on a framer that already owns 0-3 build-time insular "
-             "clones of the same moot (every generated tag / name must be fresh, no CloneError, live framers registered under distinct names)."
-             % (len(firsts), MAX_DEPTH, MAX_HOUSES, MAX_FRAMERS, FOCUS_DEPTH, TWIN_DEPTH, len(grid), len(chains), max(c[1] for c in chains), len(rears)),
+             "clones of the same moot (every generated tag / name must be fresh, no CloneError, live framers registered under distinct names), plus %d plans whose clone names <surname>_<tag> coincide through underscores (rejected at build, or "
+             "all live framers distinct and registered)."
+             % (len(firsts), MAX_DEPTH, MAX_HOUSES, MAX_FRAMERS, FOCUS_DEPTH, TWIN_DEPTH, len(grid), len(chains), max(c[1] for c in chains), len(rears), len(cplans)),
         exhaustive=False,
         explanation="complete for histories of at most %d operations over the stated alphabet; not a fixpoint" % (MAX_DEPTH + 1))
 
